@@ -6,6 +6,7 @@ package c05
 import (
 	"context"
 	"crypto/x509"
+	"crypto/x509/pkix"
 	"errors"
 	"fmt"
 	"strings"
@@ -41,23 +42,33 @@ type Case struct {
 	Format   string `json:"format"`
 	NilEntry bool   `json:"-"`
 	Warm     []int  `json:"warm,omitempty"` // result vector of an earlier verification on the same verifier (not judged)
+	// Subjects: "" ordinary subjects, "empty-leaf" the signing certificate has an empty subject DN
+	Subjects string `json:"subjects,omitempty"`
+	// Cancel: the caller's context is cancelled while the validator is being consulted;
+	// "answer" = the validator still answers with its scripted vector a little later,
+	// "ctxerr" = the context-aware validator answers with the context's error
+	Cancel string `json:"cancel,omitempty"`
 }
 
 var (
 	once   sync.Once
-	chains map[int]*pki.Chain
+	chains map[string]*pki.Chain
 )
 
-func chainOf(n int) *pki.Chain {
+func chainOf(n int, subjects string) *pki.Chain {
 	once.Do(func() {
-		chains = map[int]*pki.Chain{}
+		chains = map[string]*pki.Chain{}
 		now := time.Now()
-		chains[1] = pki.SelfSignedLeaf(nil, pki.DefaultLeafSubject("c05 selfsigned leaf"), now.Add(-24*time.Hour), now.Add(24*time.Hour))
+		chains["1"] = pki.SelfSignedLeaf(nil, pki.DefaultLeafSubject("c05 selfsigned leaf"), now.Add(-24*time.Hour), now.Add(24*time.Hour))
 		for n := 2; n <= 4; n++ {
-			chains[n] = pki.NewChain(pki.ChainOpts{Intermediates: n - 2, Name: fmt.Sprintf("c05 len%d", n)})
+			chains[fmt.Sprint(n)] = pki.NewChain(pki.ChainOpts{Intermediates: n - 2, Name: fmt.Sprintf("c05 len%d", n)})
+			chains[fmt.Sprint(n, "empty-leaf")] = pki.NewChain(pki.ChainOpts{Intermediates: n - 2, Name: fmt.Sprintf("c05 len%d e", n), LeafRaw: pkixEmpty})
 		}
 	})
-	return chains[n]
+	if n == 1 {
+		subjects = "" // a self-signed leaf with an empty subject is not a usable signing certificate
+	}
+	return chains[fmt.Sprint(n)+subjects]
 }
 
 func decorate(sel int) func(i int, r *result.CertRevocationResult) {
@@ -87,7 +98,7 @@ func decorate(sel int) func(i int, r *result.CertRevocationResult) {
 
 func check(c Case) (string, string) {
 	n := len(c.Vector)
-	ch := chainOf(n)
+	ch := chainOf(n, c.Subjects)
 	now := time.Now()
 	signingTime := now.Add(-time.Hour).Truncate(time.Second)
 	scheme, storeType := envb.SchemeX509, "ca"
@@ -133,7 +144,14 @@ func check(c Case) (string, string) {
 		v.Verify(context.Background(), desc, env, notation.VerifierVerifyOptions{ArtifactReference: kit.Reference(desc), SignatureMediaType: c.Format})
 		rev.Results, rev.Err, rev.Calls = saved, savedErr, nil
 	}
-	out, verr := v.Verify(context.Background(), desc, env, notation.VerifierVerifyOptions{ArtifactReference: kit.Reference(desc), SignatureMediaType: c.Format})
+	ctx := context.Background()
+	if c.Cancel != "" {
+		var cancel context.CancelFunc
+		ctx, cancel = context.WithCancel(ctx)
+		defer cancel()
+		rev.OnCall, rev.Delay, rev.CtxErr = cancel, 3*time.Millisecond, c.Cancel == "ctxerr" && c.Iface == "validator"
+	}
+	out, verr := v.Verify(ctx, desc, env, notation.VerifierVerifyOptions{ArtifactReference: kit.Reference(desc), SignatureMediaType: c.Format})
 	if out == nil {
 		return "C05:nil-outcome", fmt.Sprintf("nil outcome, err=%v", verr)
 	}
@@ -198,12 +216,14 @@ func check(c Case) (string, string) {
 			anyRevoked = true
 		}
 	}
-	wantFail := c.ValErr || !allGood
+	// a validator that answers with the context's error has not established anything
+	ctxErr := c.Cancel == "ctxerr" && c.Iface == "validator"
+	wantFail := c.ValErr || ctxErr || !allGood
 	if wantFail != (revRes.Error != nil) {
 		return "C05:aggregation:" + map[bool]string{true: "failure-missed", false: "spurious-failure"}[wantFail],
 			fmt.Sprintf("vector %v valErr=%v: model fail=%v, library error=%v", c.Vector, c.ValErr, wantFail, revRes.Error)
 	}
-	if wantFail && !c.ValErr {
+	if wantFail && !c.ValErr && !ctxErr {
 		msg := revRes.Error.Error()
 		if anyRevoked {
 			if !strings.Contains(msg, "is revoked") {
@@ -239,6 +259,8 @@ func check(c Case) (string, string) {
 	}
 	return "", ""
 }
+
+var pkixEmpty = pkix.RDNSequence{}
 
 func subjectOf(c *x509.Certificate) string { return c.Subject.String() }
 
@@ -276,7 +298,13 @@ func record(rec *stats.Recorder, c Case) {
 	if len(c.Warm) > 0 {
 		cl = append(cl, "reused-verifier")
 	}
-	rec.Case(cl, nt, stats.Fingerprint(fmt.Sprint(c.Vector), fmt.Sprint(c.Warm), fmt.Sprint(c.Decor), c.ValErr, c.ErrWithR, c.Iface, c.Action, c.Base, c.Scheme, c.Format), func() any { return c })
+	if c.Subjects != "" && len(c.Vector) > 1 {
+		cl = append(cl, "subjects="+c.Subjects)
+	}
+	if c.Cancel != "" {
+		cl = append(cl, "context-cancelled-during-check", "cancel="+c.Cancel)
+	}
+	rec.Case(cl, nt, stats.Fingerprint(c.Subjects, c.Cancel, fmt.Sprint(c.Vector), fmt.Sprint(c.Warm), fmt.Sprint(c.Decor), c.ValErr, c.ErrWithR, c.Iface, c.Action, c.Base, c.Scheme, c.Format), func() any { return c })
 }
 
 func evaluate(t stats.Failer, rec *stats.Recorder, c Case) {
@@ -326,6 +354,9 @@ func TestC05_Vectors(t *testing.T) {
 								}
 							}
 						}
+						if n > 1 { // the same vector on a chain whose signing certificate has an empty subject
+							evaluate(t, rec, Case{Vector: vec, Iface: iface, Action: action, Base: bases[(code+ai+2)%3], Scheme: []string{"x509", "sa"}[code%2], Format: envb.Formats[(code/2)%2], Subjects: "empty-leaf"})
+						}
 					} else {
 						evaluate(t, rec, Case{Vector: vec, Iface: iface, Action: action, Base: bases[(code+ai)%3],
 							Scheme: []string{"x509", "sa"}[(code+ii)%2], Format: envb.Formats[(code/2+ai)%2], ValErr: false})
@@ -358,6 +389,10 @@ func TestC05_Decorated(t *testing.T) {
 			for i := 0; i < n; i++ {
 				c.Warm = append(c.Warm, rp.Pick(rt, "warmStatus", 1, 1, 2, 0, 3))
 			}
+		}
+		c.Subjects = rp.Pick(rt, "subjects", "", "", "", "empty-leaf")
+		if rapid.IntRange(0, 11).Draw(rt, "cancel") == 0 {
+			c.Cancel = rp.Pick(rt, "cancelKind", "answer", "ctxerr")
 		}
 		evaluate(rt, rec, c)
 	})
